@@ -19,6 +19,7 @@ RULE = (
     "finite differences (h = 1e-6) of the assembled vector w.r.t. ALL unknowns; symmetry for hyperelastic bodies, "
     "constraints and pressure on closed surfaces. Non-trivial: max|F - I| >= 0.05 and >= 2 cells (loads: non-zero)."
     ' Added after seeded rounds: a u/p law that returns all nv x nu blocks (non-symmetric for alpha != 1), contact walls that touch the body initially, every second single-item case hands the state over in a foreign copy of the container.'
+    ' Family lifecycle: generated programs of state changes, load updates and assemblies (own container / foreign copy / no argument) on ONE item; after every assembly the vector or matrix equals that of an item built from scratch at the same state (model of the no-argument call: the state seen last; update() of pressure / Cauchy-stress items re-reads their container).'
 )
 ASSUMPTIONS = [
     "finite differences resolve relative errors >= 1e-6 of the largest matrix entry",
@@ -544,7 +545,144 @@ def check(item, case, rec):
     rec.close("matrix-reproducible", float(np.abs(K2 - K).max()) / sc, 1e-12)
 
 
-FAMILIES = [Family("tangent", ITEMS, check, strategy=strategy, n={"quick": 8, "thorough": 96}, chunk=4, weight=3)]
+# ---------------------------------------------------------------------------------------------------------------
+# family lifecycle: an item that has been used before answers like a freshly built one
+# ---------------------------------------------------------------------------------------------------------------
+LIFE = ["solid/3d", "solid/planestrain", "solid/axi", "solid/mixed", "solid/nonsym", "pressure/3d", "pressure/axi", "cauchy/3d", "bodyforce/3d", "bodyforce/axi",
+        "pointload/3d"]
+
+
+def life_strategy(kind, tier):
+    op = st.one_of(
+        st.fixed_dictionaries({"op": st.just("state"), "seed": st.integers(0, 2**16), "amp": st.sampled_from([0.05, 0.15])}),
+        st.fixed_dictionaries({"op": st.sampled_from(["vector", "matrix"]), "how": st.sampled_from(["own", "foreign", "none"]), "parallel": st.booleans()}),
+        st.fixed_dictionaries({"op": st.just("update"), "seed": st.integers(0, 2**16)}),
+    )
+    return st.fixed_dictionaries({"n": st.lists(st.integers(2, 3), min_size=3, max_size=3), "jseed": st.integers(0, 2**16), "mu": st.sampled_from([0.7, 1.0, 2.5]),
+                                  "ops": st.lists(op, min_size=3, max_size=8)})
+
+
+def life_check(kind, case, rec):
+    """a generated program of state changes, load updates and assemblies (own container, a foreign copy handed over as field=, or
+    no argument = the state the item has seen last) runs on ONE item; after every assembly the result is compared with
+    that of an item built from scratch on a fresh container holding the same state and load values"""
+    fem = import_felupe()
+    what, fk = kind.split("/")
+    dim = 2 if fk in ("planestrain", "axi") else 3
+    a0 = (0.0, 0.5) if fk == "axi" else (0.0,) * dim
+    mesh = (fem.Rectangle if dim == 2 else fem.Cube)(a=tuple(a0), b=tuple(np.array(a0) + 1.0), n=tuple(case["n"][:dim]))
+    X = np.array(mesh.points)
+    lo, hi = X.min(0), X.max(0)
+    inner = ~np.any((np.abs(X - lo) < 1e-12) | (np.abs(X - hi) < 1e-12), axis=1)
+    X[inner] += 0.1 / max(case["n"]) * np.random.default_rng(case["jseed"]).uniform(-1, 1, (int(inner.sum()), dim))
+    mesh.update(points=X)
+    region = (fem.RegionQuad if dim == 2 else fem.RegionHexahedron)(mesh)
+    boundary = what in ("pressure", "cauchy")
+    if boundary:
+        kwb = {"ensure_3d": True} if dim == 2 else {}
+        rb = (fem.RegionQuadBoundary if dim == 2 else fem.RegionHexahedronBoundary)(mesh, mask=X[:, 0] >= np.median(X[:, 0]), **kwb)
+
+    def container():
+        reg = rb if boundary else region
+        if what == "solid" and fk == "mixed":
+            return fem.FieldsMixed(reg, n=3)
+        f = fem.FieldPlaneStrain(reg, dim=2) if fk == "planestrain" else fem.FieldAxisymmetric(reg, dim=2) if fk == "axi" else fem.Field(reg, dim=dim)
+        return fem.FieldContainer([f])
+
+    mu = case["mu"]
+
+    def make(fc, load):
+        if what == "solid":
+            if fk == "mixed":
+                return fem.SolidBody(fem.NearlyIncompressible(fem.NeoHooke(mu=mu), bulk=20.0 * mu), fc)
+            if fk == "nonsym":
+                return fem.SolidBody(user_material(fem, mu, 0.3), fc)
+            return fem.SolidBody(fem.NeoHooke(mu=mu, bulk=5.0 * mu), fc)
+        if what == "pressure":
+            return fem.SolidBodyPressure(fc, pressure=float(load[0]))
+        if what == "cauchy":
+            sig = np.diag(load[:3]) + 0.1 * np.ones((3, 3))
+            return fem.SolidBodyCauchyStress(fc, cauchy_stress=sig)
+        if what == "bodyforce":
+            return fem.SolidBodyForce(fc, values=load[: fc.fields[0].dim].tolist(), scale=1.7)
+        return fem.PointLoad(fc, points=[0, len(X) - 1], values=np.tile(load[: fc.fields[0].dim], (2, 1)))
+
+    def update(it, load):
+        if what == "pressure":
+            it.update(float(load[0]))
+        elif what == "cauchy":
+            it.update(np.diag(load[:3]) + 0.1 * np.ones((3, 3)))
+        elif what == "bodyforce":
+            it.update(load[: it.field.fields[0].dim].tolist())
+        elif what == "pointload":
+            it.update(np.tile(load[: it.field.fields[0].dim], (2, 1)))
+
+    def set_values(fc, state):
+        off = 0
+        for f in fc.fields:
+            n_ = f.values.size
+            f.values[...] = state[off : off + n_].reshape(f.values.shape)
+            off += n_
+
+    own = container()
+    nall = int(sum(own.fieldsizes))
+    state = np.zeros(nall)
+    if len(own.fields) > 2:
+        state[-own.fields[2].values.size :] = 1.0
+    set_values(own, state)
+    load = np.array([0.3, -0.2, 0.5])
+    it = make(own, load)
+    bound_state = state.copy()  # the state the item has seen last (construction, or the last assembly with a field handed over)
+    bound = own
+    n_asm = 0
+    for k, o in enumerate(case["ops"]):
+        if o["op"] == "state":
+            r = np.random.default_rng(o["seed"])
+            nu_ = own.fields[0].values.size
+            state = state.copy()
+            state[:nu_] = (o["amp"] * np.sin(3.0 * np.asarray(mesh.points) + r.uniform(0, 6, dim)) * r.uniform(0.3, 1.0, dim)).ravel()
+            if len(own.fields) > 1:
+                state[nu_:] = np.concatenate([0.1 * r.uniform(-1, 1, own.fields[1].values.size), 1 + 0.05 * r.uniform(-1, 1, own.fields[2].values.size)])
+            set_values(own, state)
+        elif o["op"] == "update":
+            if what == "solid":
+                continue
+            load = np.round(np.random.default_rng(o["seed"]).uniform(-1, 1, 3), 3)
+            update(it, load)
+            if what in ("pressure", "cauchy"):
+                bound_state = state  # update() re-initialises these items: the kinematics are extracted anew from their container
+        else:
+            if o["how"] == "own":
+                arg, at = own, state
+                bound, bound_state = own, state
+            elif o["how"] == "foreign":
+                arg = container()
+                set_values(arg, state)
+                at = state
+                bound, bound_state = arg, state
+            else:
+                # without a field the item answers for the state it has seen last (at construction or in the last call with a
+                # field) - felupe keeps the extracted kinematics, not a view on the container
+                arg, at = None, bound_state
+            fresh_fc = container()
+            set_values(fresh_fc, at)
+            fresh = make(fresh_fc, load)
+            fn = (lambda b, *a_, **kw: b.assemble.vector(*a_, **kw)) if o["op"] == "vector" else (lambda b, *a_, **kw: b.assemble.matrix(*a_, **kw))
+            got = fn(it, *(() if arg is None else (arg,)), parallel=o["parallel"])
+            ref = fn(fresh, fresh_fc)
+            g, r_ = np.asarray(got.toarray(), float), np.asarray(ref.toarray(), float)
+            n_asm += 1
+            name = f'{o["op"]}-of-a-used-item=that-of-a-fresh-item'
+            if g.shape != r_.shape:
+                rec.require(name, False, {"shapes": [g.shape, r_.shape], "step": k, "how": o["how"]})
+                return
+            rec.close(name, float(np.abs(g - r_).max()) / max(float(np.abs(r_).max()), 1e-12), 1e-12, {"step": k, "how": o["how"], "ops": [x_["op"] for x_ in case["ops"][: k + 1]]})
+    rec.nontrivial = n_asm >= 2
+    rec.label(f"assemblies={min(n_asm, 4)}")
+
+
+FAMILIES = [Family("tangent", ITEMS, check, strategy=strategy, n={"quick": 8, "thorough": 96}, chunk=4, weight=3),
+            Family("lifecycle", LIFE, life_check, strategy=life_strategy, n={"quick": 12, "thorough": 300}, chunk=12)]
 
 LEVEL_TEXT = (
     "Every item / field-kind combination enumerated; Hypothesis draws meshes, states, materials and loads; the dense "
